@@ -165,6 +165,10 @@ def run(ctx):
                     ("3d", np.array([[good]]), "Dim3"),
                     ("1d", np.array(good), f"(IntRows {k}%nat {coq_list([zlist(good)])})"),
                     ("list2d", [list(good), list(good)], f"(IntRows {k}%nat {coq_list([zlist(good), zlist(good)])})"),
+                    # a FLAT sequence is ONE row, whatever its length: two or three cuts written one after the other are a row of the wrong width, not a batch
+                    ("1d-two-cuts-flat", np.array(list(good) + list(good)), f"(IntRows {2 * k}%nat {coq_list([zlist(list(good) + list(good))])})"),
+                    ("list-three-cuts-flat", list(good) * 3, f"(IntRows {3 * k}%nat {coq_list([zlist(list(good) * 3)])})"),
+                    ("1d-empty-int", np.zeros(0, dtype=int), f"(IntRows 0%nat {coq_list([zlist([])])})"),
                     ("wide", np.array([list(good) + [n]]), f"(IntRows {k + 1}%nat {coq_list([zlist(list(good) + [n])])})"),
                     ("narrow", np.array([list(good)[:-1]]), f"(IntRows {k - 1}%nat {coq_list([zlist(list(good)[:-1])])})"),
                     ("empty2d", np.zeros((0, k), dtype=int), f"(IntRows {k}%nat [])"),
